@@ -15,6 +15,9 @@ func packWorld() {
 	envWriteFile("/w/x", 0640, 300, "X")
 	envMkdir("/w/e", 0750, 100)
 	envWriteFile("/w/e/k", 0600, 400, "K")
+	envSymlink("/w/e/a", "/w/e/k", 100) // an absolute link that stays inside the external directory
+	envMkdir("/w/e2", 0750, 100)         // a sibling whose name extends the allow-listed "../e"
+	envWriteFile("/w/e2/f", 0600, 400, "E2")
 	envMkdir("/w/out", 0755, 100)
 	envChdir("/w")
 }
@@ -32,8 +35,24 @@ func packTree(n, nLink int) []packNode {
 	var nodes []packNode
 	for i := 0; i < n; i++ {
 		parent := dirs[verif.Choose("parent", len(dirs))]
-		name := verif.Bytes("nm", 1)
-		verif.Assume(name[0] != '/' && name[0] != 0 && name != ".")
+		var name string
+		if verif.Param("ext", 0) == 1 && i > 0 && verif.Bool("extends") {
+			// a name that extends the previous node's name by one byte ("a" next to "a-")
+			prev := nodes[i-1].path
+			for k := len(prev) - 1; k >= 0; k-- {
+				if prev[k] == '/' {
+					prev = prev[k+1:]
+					break
+				}
+			}
+			name = prev + verif.Bytes("nmext", 1)
+		} else {
+			name = verif.String("nm", 1, verif.Param("nName", 1))
+		}
+		verif.Assume(noNUL(name) && name != "." && name != "..")
+		for k := 0; k < len(name); k++ {
+			verif.Assume(name[k] != '/')
+		}
 		p := parent + "/" + name
 		for _, o := range nodes {
 			verif.Assume(o.path != p)
@@ -71,6 +90,11 @@ func packOptions() *Packer {
 	case 3:
 		p.dereference = true
 		p.applyTerraformIgnore = true
+	case 4:
+		p.allowSymlinkTargets = []string{"../e"} // relative allow-list entry: /w/e and below
+	case 5:
+		p.allowSymlinkTargets = []string{"../e"}
+		p.dereference = true
 	}
 	return p
 }
@@ -119,7 +143,7 @@ func HarnessPack() {
 	for _, e := range written {
 		if e.Typeflag == tar.TypeSymlink {
 			verif.Reach("link-entry")
-			if len(e.Linkname) > 0 && e.Linkname[0] != '/' {
+			if len(e.Linkname) > 0 && e.Linkname[0] != '/' && len(p.allowSymlinkTargets) == 0 {
 				// open finding KF-C05-reenters-root-by-name: a relative target that climbs above the
 				// source root and comes back in through the root directory's own name ("../s/x" in /w/s)
 				verif.Known("KF-C05-reenters-root-by-name", packClimbsAboveRoot(e.Name, e.Linkname))
@@ -127,6 +151,11 @@ func HarnessPack() {
 				verif.Assert("C05-relative-link-entry-inside-archive-root", refHasPrefix(where, []string{"root"}))
 			} else if len(p.allowSymlinkTargets) == 0 {
 				verif.Assert("C05-absolute-link-entry-only-if-in-tree", refHasPrefix(refPush(nil, e.Linkname), refPush(nil, packSrc)))
+			}
+			if len(p.allowSymlinkTargets) > 0 {
+				// stored as a link: in-tree, or inside the allow-listed directory /w/e (whole segments)
+				where := refLinkTarget(packSrc, e.Name, e.Linkname)
+				verif.Assert("C05-out-of-tree-link-stored-only-if-allow-listed", refHasPrefix(where, refPush(nil, packSrc)) || refHasPrefix(where, []string{"w", "e"}))
 			}
 		}
 	}
@@ -145,6 +174,7 @@ func HarnessPack() {
 	if allRelative {
 		verif.Reach("fed-back")
 		verif.Assert("C05-unpack-accepts-what-pack-produced", err2 == nil)
+		verif.Assert("C02-packed-tree-unpacks", err2 == nil)
 	}
 	if err2 != nil || !allRelative || p.dereference {
 		return
